@@ -350,6 +350,38 @@ Section Sign.
     let bits := (8 * N.of_nat (length id))%N in
     sm3 ([N.shiftr bits 8; N.land bits 255]%N ++ id ++ curve_params ++ point_bytes P).
 
+  (* ---------- sm2_key.c: the key objects every signing / encryption interface starts from ---------- *)
+  (* sm2_key_generate: do { rand_range(d, n-1) } while (d == 0);  P = [d]G *)
+  Fixpoint keygen_loop (fuel : nat) (e : ent) : option (Z * ent) :=
+    match fuel with
+    | O => None
+    | S f =>
+      match rand_range 100 (n - 1) e with
+      | None => None
+      | Some (d, e') => if d =? 0 then keygen_loop f e' else Some (d, e')
+      end
+    end.
+  Definition key_generate (e : ent) : option (Z * pt * ent) :=
+    match keygen_loop (S (length e)) e with
+    | None => None
+    | Some (d, e') => Some (d, sm2_mulG NO d, e')
+    end.
+  (* sm2_key_set_private_key: refuses 0 and d >= n-1 *)
+  Definition key_set_private (d : Z) : option (Z * pt) :=
+    if d =? 0 then None else if n - 1 <=? d then None else Some (d, sm2_mulG NO d).
+  (* sm2_public_key_digest: SM3(04 || x || y); error for the point at infinity *)
+  Definition public_key_digest (P : pt) : option (list N) :=
+    match P with
+    | None => None
+    | Some _ => Some (sm3_finish (sm3_update sm3_init (4%N :: point_bytes P)))
+    end.
+  (* sm2_public_key_equ on finite affine keys *)
+  Definition public_key_equ (P Q : pt) : bool :=
+    (get_x P =? get_x Q) && (get_y P =? get_y Q).
+  (* return value of sm2_signature_print: the same parse as sm2_verify (trailing bytes refused) *)
+  Definition signature_print_ok (a : list N) : bool :=
+    match sig_from_der a with Some (_, []) => true | _ => false end.
+
   (* ---------- streaming contexts ---------- *)
   (* sm2_sign_update / sm2_verify_update: if (data && datalen > 0) sm3_update *)
   Definition upd (c : sm3_ctx) (d : list N) : sm3_ctx :=
